@@ -142,7 +142,29 @@ def eval_cover(ctx):
             except SPanic_ as x:
                 return "assemble_str(%d bytes): %s" % (n_, x)
         return None
+    def walks(kind):
+        def run():
+            from . import travx
+            for inst_, _wh, got_, _want in travx.cases(ctx):
+                if kind in inst_ and not isinstance(got_, list):
+                    return "%s: %s" % (inst_, str(got_)[:200])
+            return None
+        return run
+
+    def lookups():
+        from . import lookx
+        from .c09 import TABLE_OF
+        for sty_, (static_, _tab, _en) in TABLE_OF.items():
+            for target_ in (0, 1, 2, None):
+                r_, _h = lookx.lookup(ctx, sty_, "lookup_opcode", static_, target_)
+                if isinstance(r_, tuple) and r_ and r_[0] == "panic":
+                    return "%s::lookup_opcode(%s): %s" % (sty_, "row %s" % target_ if target_ is not None else "absent", r_[1:])
+        return None
     table = {"Consumer>::consume_instruction": (("call",), loader_consume), "assemble::assemble_str": (("call",), asm_str),
+             "Function as binary::assemble::Assemble>::assemble_into": (("call", "assert"), walks("Function::assemble_into")),
+             "Block as binary::assemble::Assemble>::assemble_into": (("call", "assert"), walks("Block::assemble_into")),
+             "Module as binary::assemble::Assemble>::assemble_into": (("call", "assert"), walks("Module::assemble_into")),
+             "InstructionTable::lookup_opcode": (("call", "assert"), lookups),
              "ExtInstSetTracker::track": (("call",), ext_track), "disassemble::disas_ext_inst": (("call",), dis_ext),
              "Decoder::string": (("call", "assert"), dec("string")), "Decoder::words": (("call", "assert"), dec("words")),
              "Decoder::bit64": (("call",), dec("bit64")), "Decoder::word": (("call", "assert"), dec("id")),
